@@ -178,6 +178,10 @@ def cmd_check(args):
                               json.dumps(agg.known[kid]["example"],
                                          default=repr)[:300]))
 
+    if os.environ.get("VERIF_DUMP_DIGESTS"):
+        with open(os.environ["VERIF_DUMP_DIGESTS"], "w") as f:
+            for rec in sorted(agg.per_run):
+                f.write("%s %d %s %s\n" % tuple(rec))
     wall = time.time() - t0
     write_evidence(spec, prop, tier, seed, agg, wall, wall_batch, reported,
                    nworkers, jobs)
@@ -242,7 +246,8 @@ def write_evidence(spec, prop, tier, seed, agg, wall, wall_batch, reported,
                   "pre-emption at source-line granularity inside the "
                   "instrumented dateutil files only"]),
               wall_s=round(wall, 2), violations=len(reported))
-    d = os.path.join(VERIF, "evidence")
+    d = os.environ.get("VERIF_EVIDENCE_DIR") or os.path.join(VERIF,
+                                                             "evidence")
     os.makedirs(d, exist_ok=True)
     tmp = os.path.join(d, prop + ".json.tmp")
     with open(tmp, "w") as f:
@@ -321,6 +326,8 @@ def main(argv=None):
     s = sub.add_parser("selftest")
     s.add_argument("--n", type=int, default=12)
     s.add_argument("--props", default=None)
+    s.add_argument("--batch-runs", type=int, default=0,
+                   help="also compare whole batches at 3 and 16 workers")
     args = ap.parse_args(argv)
     if args.cmd is None:
         ap.print_help()
